@@ -173,10 +173,18 @@ class GrammarModel:
                 items = list(sp.parse(t["value"]))
             except Exception:
                 return None
-            zero_width = (sp.ASSERT, sp.ASSERT_NOT, sp.AT)
-            while items and items[0][0] in zero_width:
+            def zero_width(it):
+                op, av = it
+                if op in (sp.ASSERT, sp.ASSERT_NOT, sp.AT):
+                    return True
+                if op is sp.SUBPATTERN:
+                    return all(zero_width(x) for x in av[3])
+                if op is sp.BRANCH:
+                    return all(all(zero_width(x) for x in br) for br in av[1])
+                return False
+            while items and zero_width(items[0]):
                 items.pop(0)
-            while items and items[-1][0] in zero_width:
+            while items and zero_width(items[-1]):
                 items.pop()
             if items and all(op is sp.LITERAL for op, _ in items):
                 return "".join(chr(v) for _, v in items)
